@@ -434,9 +434,34 @@ class Program:
                     return fields.index(attr)
         return None
 
+    @staticmethod
+    def splice_star_dicts(kws):
+        """f(**dict(**a, k=v), m=w)  ==  f(**a, k=v, m=w);  f(**{"k": v})  ==  f(k=v)."""
+        if not any(k is None and is_term(v) and (v[0] == "dict" or (v[0] == "call" and v[1] == ("glob", "builtins.dict") and not v[2]))
+                   for k, v in kws):
+            return kws
+        named, stars = [(k, v) for k, v in kws if k is not None], []
+        for k, v in kws:
+            if k is not None:
+                continue
+            if is_term(v) and v[0] == "call" and v[1] == ("glob", "builtins.dict") and not v[2]:
+                inner = Program.splice_star_dicts(v[3])
+                if not ({a for a, _ in inner if a is not None} & {a for a, _ in named}):
+                    named += [(a, b) for a, b in inner if a is not None]
+                    stars += [(None, b) for a, b in inner if a is None]
+                    continue
+            if is_term(v) and v[0] == "dict" and v[1] and all(
+                    a is not None and is_term(a) and a[0] == "const" and isinstance(a[1], str) for a, _b in v[1]) \
+                    and not ({a[1] for a, _ in v[1]} & {a for a, _ in named}):
+                named += [(a[1], b) for a, b in v[1]]
+                continue
+            stars.append((k, v))
+        return tuple(sorted(named, key=lambda kv: kv[0])) + tuple(stars)
+
     def canonical_call(self, f, pargs, kws):
         """Positional arguments of calls to known lcm functions / dataclasses are turned into
         keyword arguments, so that ``g(a, b)`` and ``g(x=a, y=b)`` are the same term."""
+        kws = self.splice_star_dicts(tuple(kws))
         if is_term(f) and f[0] == "class" and not any(p[0] == "star" for p in pargs) and all(k is not None for k, _ in kws):
             fields = self.namedtuple_fields(f[1])
             if fields:
@@ -490,6 +515,8 @@ class Program:
         if not isinstance(t, tuple):
             return t
         t2 = tuple(self.expand(x, depth, skip, loops) if isinstance(x, tuple) else x for x in t)
+        if is_term(t2) and t2[0] == "call" and len(t2) == 4 and any(k is None for k, _ in t2[3]):
+            t2 = (t2[0], t2[1], t2[2], self.splice_star_dicts(t2[3]))  # an inlined helper may have produced f(**dict(...))
         if is_term(t2) and t2[0] == "call" and depth < 8:
             tgt = t2[1]
             if tgt[0] == "func" and tgt[1] not in skip:
